@@ -15,7 +15,8 @@ RULE = ('hypothesis: two-qubit states of rank 1..4 from {random of given rank, s
         'eigenvalue, negativity = sum |lambda_-|; for models: the ensemble read off the Stiefel point is a decomposition of the CURRENT state, loss = explicit ensemble '
         'average computed in numpy, loss >= closed form. Non-trivial = not Werner/isotropic, or 0<C<1e-6, or s in {1e-6,10}, or re-used model; '
         'distinct = (state kind, rank, eps bucket) / (model, num_term, s, reuse).'
-        ' States also in other memory layouts; models built for fewer eigenvectors than the state has must refuse or stay above the closed form; the same ndarray object is re-used (overwritten in place) for the second state.')
+        ' States also in other memory layouts; models built for fewer eigenvectors than the state has must refuse or stay above the closed form; the same ndarray object is re-used (overwritten in place) for the second state.'
+        ' Weakly entangled pure states (Schmidt probability 1e-14..1e-2); real-dtype states; model inputs in every memory layout, unchanged after set_density_matrix.')
 ASSUMPTIONS = ['concurrence comparisons at 1e-7 (square roots of eigenvalues); loss >= closed form - 1e-8',
                'linear entropy: two-qubit convex roof of 1-Tr rho_A^2 equals C^2/2',
                'the ensemble is reconstructed from the model attributes manifold / manifold_stiefel and _sqrt_rho; if they disappear only the inequality is judged']
